@@ -5,6 +5,7 @@ mod patcat;
 mod astdump;
 mod c01;
 mod c08;
+mod c08spell;
 mod c03;
 mod c05;
 mod c07;
